@@ -5,19 +5,18 @@
 -/
 import PegtlVerif.Model.Run
 import PegtlVerif.Lemmas.Input
+import PegtlVerif.Lemmas.MultiByte
 
 namespace Pegtl
 
 /-- The cursor a scan of the first `p` bytes produces (what a lazy input reports). -/
 def scanTo (cx : Ctx) (p : Nat) : Cursor := bumpScan cx.inp cx.eol.ch p ⟨0, cx.init.line, cx.init.col⟩
 
-/-- Atoms that read plain bytes (the multi-byte UTF-8 and digit-run atoms are handled separately). -/
-def Atom.byteAtom : Atom → Bool
-  | .utf8Range _ _ _ => false
-  | .maxDigits _ => false
-  | _ => true
+/-- Atoms whose position tracking is covered by `atomStep_tracked`: all of them (the multi-byte UTF-8 atom and the
+    digit-run atom of `maximum_rule` included, see `Lemmas/MultiByte.lean`). -/
+def Atom.byteAtom : Atom → Bool := fun _ => true
 
-/-- Table condition for the tracking theorems: plain-byte atoms only. -/
+/-- Table condition for the tracking theorems (kept for the statement's shape; it holds for every table, `byteTable_all`). -/
 def ByteTable (g : Grammar) : Prop :=
   ∀ (i : Nat) (nd : Node) (a : Atom), g[i]? = some nd → nd.kind = .atom a → a.byteAtom = true
 
@@ -283,7 +282,83 @@ theorem atomStep_tracked (cx : Ctx) (a : Atom) (st : St) (hb : TrackOK cx → a.
   | failure => exact ht
   | everything => simp only [atomStep]; simpa using tracked_bumpScan cx _ _ ht
   | require n => exact ht
-  | utf8Range found lo hi => simp [Atom.byteAtom] at hb
-  | maxDigits mx => simp [Atom.byteAtom] at hb
+  | utf8Range found lo hi =>
+    simp only [atomStep]
+    split
+    · rename_i cp n hpk
+      split
+      · obtain ⟨h1, hlen, hone, hmulti⟩ := Utf.peekUtf8_bytes _ cp n hpk
+        apply bumpHelp_tracked _ _ _ _ ht
+        intro hta k hk
+        have hw : (windowBytes cx st).getD k 0 = cx.inp.getD (st.cur.pos + k) 0 :=
+          windowBytes_getD cx st k (by omega)
+        rw [← hw]
+        intro heq
+        by_cases hn : n = 1
+        · have hk0 : k = 0 := by omega
+          subst hk0
+          obtain ⟨hcp, -⟩ := hone hn
+          rename_i hacc
+          have : cp = cx.eol.ch.toNat := by rw [hcp, heq]
+          rw [this] at hacc
+          simp only [Atom.testAny] at hta
+          rw [hacc] at hta
+          exact absurd hta (by simp)
+        · have := hmulti (by omega) k hk
+          rw [heq] at this
+          rcases hch with h | h <;> rw [h] at this <;> simp at this
+      · exact ht
+    · exact ht
+  | repOne lo hi c =>
+    simp only [atomStep]
+    split
+    · exact ht
+    · split
+      · apply bumpHelp_tracked _ _ _ _ ht
+        intro hta k hk
+        have hle := takeWhile_length_le (· == c) ((windowBytes cx st).take (hi + 1))
+        have hle2 : ((windowBytes cx st).take (hi + 1)).length ≤ (windowBytes cx st).length := by
+          simp only [List.length_take]; omega
+        have hw : (windowBytes cx st).getD k 0 = cx.inp.getD (st.cur.pos + k) 0 :=
+          windowBytes_getD cx st k (by omega)
+        rw [← hw]
+        have hd := takeWhile_getD (· == c) ((windowBytes cx st).take (hi + 1)) k 0 hk
+        have htk : ((windowBytes cx st).take (hi + 1)).getD k 0 = (windowBytes cx st).getD k 0 := by
+          have hk2 : k < hi + 1 := by
+            have : ((windowBytes cx st).take (hi + 1)).length ≤ hi + 1 := by simp only [List.length_take]; omega
+            omega
+          simp [List.getD, List.getElem?_take, hk2]
+        rw [htk] at hd
+        intro heq
+        rw [heq] at hd
+        simp only [Atom.testAny] at hta
+        have : cx.eol.ch = c := by simpa using hd
+        rw [this] at hta
+        simp at hta
+      · exact ht
+  | maxDigits mx =>
+    simp only [atomStep]
+    split
+    · exact ht
+    · split
+      · exact ht
+      · split
+        · simp only [bumpInThisLine_cur]
+          apply tracked_inThisLine cx _ _ ht
+          intro k hk
+          have hle := takeWhile_length_le isDigitB (windowBytes cx st)
+          have hw : (windowBytes cx st).getD k 0 = cx.inp.getD (st.cur.pos + k) 0 :=
+            windowBytes_getD cx st k (by omega)
+          rw [← hw]
+          have hd := takeWhile_getD isDigitB (windowBytes cx st) k 0 hk
+          intro heq
+          rw [heq] at hd
+          rcases hch with h | h <;> rw [h] at hd <;> simp [isDigitB] at hd
+        · exact ht
+
+theorem byteTable_all (g : Grammar) : ByteTable g := fun _ _ _ _ _ => rfl
+
+theorem trackOK_iff (cx : Ctx) : TrackOK cx ↔ cx.eol ≠ .crCrlf :=
+  ⟨fun h => h.1, fun h => ⟨h, byteTable_all cx.g⟩⟩
 
 end Pegtl
